@@ -141,13 +141,17 @@ def line_polygon_intersections(polygon, line, bound_line = (True,True)):
                 ind[c] = i
         except LinAlgError: continue
     crossings = [np.array(c) for c, i in ind.items()]
-    # Remove duplicates and sort by distance from start of line:
+    # Sort by distance from start of line and remove duplicates (crossings
+    # closer together than a small fraction of the polygon size, e.g. at a
+    # corner shared by two sides):
     d = np.array([norm(c - line[0]) for c in crossings])
-    if len(d) > 0: d = d / max(d[-1], 1) # non-dimensionalise
-    d = d.round(decimals = 3)
-    d_unique, i_unique = np.unique(d, return_index = True)
-    sortindex = np.argsort(d_unique)
-    return [crossings[i_unique[i]] for i in sortindex]
+    dtol = 1.e-3 * min(max([norm(p - ref) for p in polygon]), 1.)
+    result, dlast = [], None
+    for i in np.argsort(d):
+        if dlast is None or d[i] - dlast > dtol:
+            result.append(crossings[i])
+            dlast = d[i]
+    return result
 
 def polyline_polygon_intersections(polygon, polyline):
     """Returns a list of intersection points at which a polyline (list of
